@@ -33,6 +33,9 @@ PAIRS = [(h, v) for h in range(3) for v in range(3) if h != v]
 KF_SHEAR = "C18:simple_shear_2d:gradient=2*jacobian"
 KF_CELL = "C18:cell_2d:gradient[v,h]<->gradient[v,v]"
 KF_PATH = "C18:get_pathline:cell_2d(X,Z,1):end=(0.6,0,0.6):max_strain=0.5:ValueError"
+KF_ZERO = "C18:get_pathline:simple_shear_2d(X,Z,1):end=(0.25,0.5,0.5):max_strain=0:timestamps=[0,0]"
+KF_STEPS0 = "C18:get_pathline:simple_shear_2d(X,Z,1):end=(0.25,0.5,0.5):regular_steps=0:timestamps=[t_start]"
+KF_STAGNATION = "C18:get_pathline:cell_2d(X,Z,1):end=(1,0,1):max_strain=0.5:strain=4.5e9"
 BRENTQ_MSG = "f(a) and f(b) must have different signs"
 PATHLINE_TIMEOUT_S = 20      # unchanged tree: <= 0.5 s per pathline
 MAX_EVENT_CALLS = 5000
@@ -467,6 +470,11 @@ def check_pathline(chk, spec, rec, stats):
                      "this call's arguments (state carried over from an earlier call)")
         t = np.array([0.0, float(ts[0])]) if len(ts) else np.array([0.0, -1.0])
     else:
+        if ms <= 1e-290 and len(t) == 2 and t[0] == 0.0 and t[1] == 0.0 and np.all(ts == 0.0):
+            # KNOWN FINDING (KF_ZERO): a strain limit of 0 (or one that underflows) makes the terminal event 0 at t = 0;
+            # solve_ivp then returns t = [0, 0] and get_pathline hands the duplicate on
+            rec["known"] = rec.get("known", []) + [KF_ZERO]
+            return fails
         if not (t[0] == 0.0 and np.all(np.diff(t) < 0)):
             fails.append(f"oracle hypothesis violated: solve_ivp times do not start at 0 and strictly decrease: {t[:4]}")
         m = ("OK", list(ts)) if not have_model else common.run_model([common.model_line("timestamps", [0 if steps is None else 1, steps or 0], list(t))], group=GROUP)[0]
@@ -475,8 +483,13 @@ def check_pathline(chk, spec, rec, stats):
     # ---- runtime-checked clauses (not provable: they are about solve_ivp's trajectory)
     f = rec["f"]
     size = float(np.max(mx - mn))
+    if size == 0.0:        # a box that is a single point: lengths are measured against the coordinates themselves
+        size = max(float(np.max(np.abs(mx))), 1e-300)
     if not (len(ts) >= 2 and np.all(np.diff(ts) > 0) and ts[-1] == 0.0):
-        if len(t) >= 2:
+        if steps == 0 and len(ts) == 1 and len(t) >= 2 and ts[0] == t[-1]:
+            # KNOWN FINDING (KF_STEPS0): regular_steps = 0 returns the single EARLIEST time (np.linspace(a, b, 1) = [a])
+            rec["known"] = rec.get("known", []) + [KF_STEPS0]
+        elif len(t) >= 2:
             fails.append(f"time stamps are not strictly increasing up to 0: {list(ts)[:5]}")
     end = np.asarray(f(0.0))
     d_end = float(np.abs(end - p).max())
@@ -502,10 +515,19 @@ def check_pathline(chk, spec, rec, stats):
                 except Exception:  # noqa: BLE001
                     rates.append(0.0)
         strain = float(np.sum(rates) * T / 400)
-        stats["strain_ratio_max"] = max(stats["strain_ratio_max"], strain / ms)
-        stats["strain_ratios"].append(round(strain / ms, 4))
-        if strain > 1.25 * ms * (1 + 1e-3):
-            fails.append(f"accumulated strain {strain:.6g} exceeds 1.25 x max_strain = {1.25 * ms:.6g}")
+        # a strain limit of 0: the pathline must be (numerically) of zero length -- measured against the strain one solver
+        # step accumulates (first step of LSODA <= 1e-4 of the natural time 1/rate)
+        ratio = strain / ms if ms > 0 else (0.0 if strain <= 1e-3 else float("inf"))
+        if stagnation_corner(spec, rec) and strain > 1.25 * ms * (1 + 1e-3):
+            # KNOWN FINDING (KF_STAGNATION): end point at a corner of the Stokes cell (a stagnation point ON the box): the
+            # velocity is ~1e-16 U, LSODA takes one step of ~1e9 time units, the point drifts out of the box by ~1e-6, the
+            # event returns exactly 0 there ("outside") and the root is located at the far end of the step
+            rec["known"] = rec.get("known", []) + [KF_STAGNATION]
+        else:
+            stats["strain_ratio_max"] = max(stats["strain_ratio_max"], ratio)
+            stats["strain_ratios"].append(round(ratio, 4))
+            if ratio > 1.25 * (1 + 1e-3):
+                fails.append(f"accumulated strain {strain:.6g} exceeds 1.25 x max_strain = {1.25 * ms:.6g}")
         # dx/dt = u(x) at interior sample times (central differences of the interpolant)
         worst = 0.0
         hstep = 1e-5 * T
@@ -520,11 +542,87 @@ def check_pathline(chk, spec, rec, stats):
                 continue
             dx = (np.asarray(f(tau + hstep)) - np.asarray(f(tau - hstep))) / (2 * hstep)
             umax = max(float(np.abs(ux).max()), abs(ps[0]) * (1e-3 if flow else 1e-3 * size))
+            # rounding error of the difference quotient itself (positions carry ~eps |x|): a pathline so short that the
+            # quotient cannot resolve 0.1 % of the velocity says nothing about dx/dt (false alarm at max_strain = 1e-12)
+            if 4 * np.finfo(float).eps * max(float(np.abs(x).max()), 1e-300) / (2 * hstep) > 1e-3 * umax:
+                stats["ode_samples_unresolvable"] = stats.get("ode_samples_unresolvable", 0) + 1
+                continue
             worst = max(worst, float(np.abs(dx - ux).max()) / umax)
         stats["ode_residual_max"] = max(stats["ode_residual_max"], worst)
         if worst > 5e-2:
             fails.append(f"dx/dt differs from u(x) by {worst:.3e} (relative) along the pathline")
     return fails
+
+
+def stagnation_corner(spec, rec):
+    """signature of KF_STAGNATION: cell_2d, end point exactly at a corner of the cell (|h| = |v| = d/2), velocity there
+    below 1e-15 U, and solve_ivp returned after ONE step"""
+    flow, hl, vl, ps, mn, mx, p, ms, steps = spec
+    if flow != 1 or rec["t"] is None or len(rec["t"]) != 2:
+        return False
+    h, v = ordl(hl), ordl(vl)
+    if not (abs(p[h]) == ps[1] / 2 and abs(p[v]) == ps[1] / 2):
+        return False
+    return bool(np.abs(np.asarray(rec["u"](np.nan, p))).max() <= 1e-15 * abs(ps[0]))
+
+
+def boundary_specs():
+    """Deterministic boundary-value pathlines (every run, both tiers): end points ON faces / edges / corners of the box
+    (inflow and outflow side), degenerate boxes (one axis or all axes with min == max), strain limits 0 / tiny / so large
+    that the box decides / reached exactly AT a face, regular_steps 0 and 1.  [(name, spec)]"""
+    one = np.ones(3)
+    A = np.array
+    out = []
+    S = (0, "X", "Z", [1.0])                      # u_x = z
+    for name, p, ms, steps in (
+            ("shear: end point on the face z = max", [0.25, 0.5, 1.0], 0.5, None),
+            ("shear: end point on the inflow face", [-1.0, 0.5, 0.5], 0.5, None),
+            ("shear: end point on the outflow face", [1.0, 0.5, 0.5], 0.5, None),
+            ("shear: end point on an edge", [0.25, 1.0, 1.0], 0.5, 5),
+            ("shear: end point at a corner (outflow)", [1.0, 1.0, 1.0], 0.5, None),
+            ("shear: end point at a corner (inflow)", [-1.0, -1.0, 1.0], 0.5, None),
+            ("shear: end point on the line u = 0", [0.3, 0.0, 0.0], 0.5, None),
+            ("shear: strain limit 0", [0.25, 0.5, 0.5], 0.0, None),
+            ("shear: strain limit 0, resampled", [0.25, 0.5, 0.5], 0.0, 3),
+            ("shear: strain limit 1e-300", [0.25, 0.5, 0.5], 1e-300, None),
+            ("shear: strain limit 1e-12", [0.25, 0.5, 0.5], 1e-12, None),
+            ("shear: strain limit 1e9 (the box decides)", [0.25, 0.5, 0.5], 1e9, None),
+            ("shear: strain limit reached exactly at the inflow face", [0.25, 0.5, 0.5], 2.5, None),
+            ("shear: regular_steps = 0", [0.25, 0.5, 0.5], 0.5, 0),
+            ("shear: regular_steps = 1", [0.25, 0.5, 0.5], 0.5, 1)):
+        out.append((name, S + (-one, one, A(p), ms, steps)))
+    p = A([0.25, 0.5, 0.5])
+    out.append(("shear: box = the end point", S + (p.copy(), p.copy(), p.copy(), 0.5, None)))
+    out.append(("shear: flat box (dummy axis)", S + (A([-1, 0.5, -1.0]), A([1, 0.5, 1.0]), p.copy(), 0.5, None)))
+    out.append(("shear: flat box (gradient axis)", S + (A([-1, -1, 0.5]), A([1, 1, 0.5]), p.copy(), 0.5, 4)))
+    out.append(("shear: flat box (flow axis)", S + (A([0.25, -1, -1.0]), A([0.25, 1, 1.0]), p.copy(), 0.5, None)))
+    S2 = (0, "Z", "Y", [0.5])
+    out.append(("shear ZY: end point at a corner", S2 + (-one, one, A([1.0, -1.0, -1.0]), 1.0, None)))
+    C = (1, "X", "Z", [1.0, 2.0])
+    for name, p, ms, steps in (
+            ("cell: end point on a face", [1.0, 0.0, 0.3], 0.5, None),
+            ("cell: end point on the opposite face", [-0.4, 0.0, -1.0], 0.5, 10),
+            ("cell: end point at the centre (stagnation point)", [0.0, 0.0, 0.0], 0.5, None),
+            ("cell: end point at a corner (stagnation point on the box)", [1.0, 0.0, 1.0], 0.5, None),
+            ("cell: strain limit 0", [0.3, 0.0, 0.2], 0.0, None),
+            ("cell: strain limit 20 (several revolutions)", [0.3, 0.0, 0.2], 20.0, None)):
+        out.append((name, C + (-one, one, A(p), ms, steps)))
+    out.append(("cell: box smaller than the cell, end point on its corner",
+                C + (A([-0.5, -0.5, -0.5]), A([0.5, 0.5, 0.5]), A([0.5, 0.5, 0.5]), 0.5, None)))
+    K = (2, "X", "Z", [1.0])
+    mn, mx = A([0.0, -1.0, -2.0]), A([2.0, 1.0, 0.0])
+    for name, p, ms, steps in (
+            ("corner: end point on the surface", [0.5, 0.0, 0.0], 0.5, None),
+            ("corner: end point on the ridge axis", [0.0, 0.0, -0.5], 0.5, None),
+            ("corner: end point on the bottom face", [0.5, 0.0, -2.0], 0.5, None),
+            ("corner: end point on the far face", [2.0, 0.0, -0.5], 0.5, 7),
+            ("corner: end point at a lower corner of the box", [2.0, 1.0, -2.0], 0.5, None),
+            ("corner: strain limit 0", [0.5, 0.0, -0.5], 0.0, None),
+            ("corner: strain limit 1e9 (the box decides)", [0.5, 0.0, -0.5], 1e9, None)):
+        out.append((name, K + (mn.copy(), mx.copy(), A(p), ms, steps)))
+    out.append(("corner: 2D box in 3D (dummy axis min = max = 0), end point on the surface",
+                K + (A([0.0, 0.0, -2.0]), A([2.0, 0.0, 0.0]), A([0.75, 0.0, 0.0]), 1.0, None)))
+    return out
 
 
 def encode_spec(spec):
@@ -569,8 +667,30 @@ SEQ_FRACTIONS = [k / 8 for k in range(9)]
 CONTAINERS = ("array", "list", "list_all", "tuple_box", "float32", "int_box")
 
 
-def _flow_step(slot, flow, hl, vl, ps):
-    return {"op": "flow", "slot": slot, "flow": FLOWS[flow], "h": hl, "v": vl, "ps": [hx(a) for a in ps]}
+def _flow_step(slot, flow, hl, vl, ps, shared=False):
+    return {"op": "flow", "slot": slot, "flow": FLOWS[flow], "h": hl, "v": vl, "ps": [hx(a) for a in ps], "shared": bool(shared)}
+
+
+def share_buffers(pair):
+    """The `lambda t, x: L` idiom of user code: each callable writes its result into ONE persistent ndarray and hands
+    that same object back on every call.  Returns (velocity, gradient, intact) where intact() says whether the buffers
+    still hold what the callables last put there (nobody may write into what a callable returned)."""
+    state = {"modified": 0}
+
+    def wrap(f, shape):
+        buf, last = np.zeros(shape), [None]
+
+        def g(t, x):
+            if last[0] is not None and not np.array_equal(buf, last[0], equal_nan=True):
+                state["modified"] += 1
+            val = np.asarray(f(t, x), dtype=float)
+            buf[...] = val
+            last[0] = val.copy()
+            return buf
+        g.intact = lambda: last[0] is None or np.array_equal(buf, last[0], equal_nan=True)
+        return g
+    u, L = wrap(pair[0], 3), wrap(pair[1], (3, 3))
+    return u, L, (lambda: state["modified"] == 0 and u.intact() and L.intact())
 
 
 def _drop_step(slot):
@@ -708,6 +828,18 @@ def gen_scenarios(rng, tier):
         for c in CONTAINERS:
             st.append(_path_step(0, p, mn, mx, 0.5, None, as_=c))
         out.append({"family": "containers_and_dtypes", "flow": FLOWS[flow], "steps": st})
+    # --- user callables that hand back ONE persistent ndarray on every call (the `lambda t, x: L` idiom): the results
+    #     must be those of the same flow returning fresh arrays (compared bit for bit with the reference run), and nobody
+    #     may write into the buffers
+    for flow in range(3):
+        h, v = PAIRS[int(rng.integers(6))]
+        mn, mx, p, ps = seq_domain(rng, flow, h, v)
+        ms = float(rng.choice([0.25, 0.5, 1.0]))
+        p2 = mn + (mx - mn) * (0.5 + 0.7 * ((p - mn) / (mx - mn) - 0.5))
+        st = [_flow_step(0, flow, LETTERS[h], LETTERS[v], ps, shared=True)]
+        for pp, m_, steps in ((p, ms, None), (p, ms / 2, None), (p2, ms, None), (p, ms, 6)):
+            st.append(_path_step(0, pp, mn, mx, m_, steps))
+        out.append({"family": "shared_buffers", "flow": FLOWS[flow], "steps": st})
     # --- boundary values (fixed): end points on a face / an edge / a corner of the box, on the line u = 0,
     #     a strain limit so small / so large that the other stopping criterion decides, one resampling step
     one = np.ones(3)
@@ -752,13 +884,19 @@ def _digest(rec):
 def run_scenario(sc):
     """Execute one scenario in THIS process; every returned pathline is checked against ITS OWN flow with
     the clauses of check_pathline.  Returns one dict per `path` step."""
-    slots, flowdef, shared, out = {}, {}, {}, []
+    slots, flowdef, shared, intact, out = {}, {}, {}, {}, []
     for st in sc["steps"]:
         if st["op"] == "flow":
             flowdef[st["slot"]] = st
-            slots[st["slot"]] = make_flow(FLOWS.index(st["flow"]), st["h"], st["v"], [unhx(a) for a in st["ps"]])
+            pair = make_flow(FLOWS.index(st["flow"]), st["h"], st["v"], [unhx(a) for a in st["ps"]])
+            intact.pop(st["slot"], None)
+            if st.get("shared"):
+                u, L, ok = share_buffers(pair)
+                pair, intact[st["slot"]] = (u, L), ok
+            slots[st["slot"]] = pair
         elif st["op"] == "drop":
             slots.pop(st["slot"], None)
+            intact.pop(st["slot"], None)
             gc.collect()
         else:
             spec = step_spec(flowdef[st["slot"]], st)
@@ -768,10 +906,13 @@ def run_scenario(sc):
                 fails = check_pathline(chk_dummy, spec, rec, stats)
             except Exception as e:  # noqa: BLE001
                 fails = [f"the returned pathline cannot be evaluated: {type(e).__name__}: {str(e)[:160]}"]
+            if st["slot"] in intact and not intact[st["slot"]]():
+                fails.append("get_pathline wrote into an array returned by a user callable (the callables hand back one persistent "
+                             "ndarray each; its content changed between two calls of the callable)")
             known = is_known_pathline_failure(spec, rec, fails)
             if rec["exc"] is not None and not known:
                 fails.append(f"get_pathline raised {rec['exc'][0]}: {rec['exc'][1]}")
-            res = {"exc": rec["exc"], "known": bool(known), "fails": fails, "solver_called": rec["t"] is not None,
+            res = {"exc": rec["exc"], "known": bool(known), "known_sigs": rec.get("known", []), "fails": fails, "solver_called": rec["t"] is not None,
                    "event_calls": len(rec["calls"]), "ts": None, "X": None,
                    "stats": {k: stats[k] for k in ("event_calls", "event_forward_jumps", "end_error_max", "outside_max",
                                                    "strain_ratio_max", "ode_residual_max")}}
@@ -911,6 +1052,8 @@ def compare_sessions(chk, scenarios, results, stats, known_path_points):
             for f in r["fails"]:
                 bad.append((sc, f"{where}: {f}"))
             spec = step_spec(fd, st)
+            for sig in r.get("known_sigs", []):
+                stats.setdefault("known_signatures", {}).setdefault(sig, []).append(spec)
             if r["known"]:
                 seq["known_brentq_failures"] += 1
                 known_path_points.append(spec)
@@ -1234,7 +1377,10 @@ def run(chk):
         bad += compare_kernels(chk, kc, rtol=1e-10)
         bad += compare_strain_increment(chk, rng, chk.tier)
         bad += compare_inside(chk, rng, chk.tier)
-        specs = [WITNESS_PATH] + pathline_specs(rng, chk.tier)
+        bnd = boundary_specs()
+        specs = [WITNESS_PATH] + [sp for _, sp in bnd] + pathline_specs(rng, chk.tier)
+        names = {id(sp): nm for nm, sp in bnd}
+        chk.cov.setdefault("histogram", {})["pathline:boundary_values"] = len(bnd)
         timeouts = 0
         for spec in specs:
             if timeouts >= 3:      # do not spend 20 s on each of the remaining pathlines
@@ -1244,7 +1390,14 @@ def run(chk):
             timeouts += int(rec["exc"] is not None and rec["exc"][0] == "TimeoutError")
             stats["pathlines"] += 1
             fails = check_pathline(chk, spec, rec, stats)
-            chk.note_case(("pathline", spec[0], spec[1], spec[2], tuple(spec[3]), spec[6].tobytes(), spec[7], spec[8]), nontrivial=True)
+            chk.note_case(("pathline", spec[0], spec[1], spec[2], tuple(spec[3]), spec[6].tobytes(), spec[4].tobytes(), spec[5].tobytes(),
+                           spec[7], spec[8]), nontrivial=True)
+            for sig in rec.get("known", []):
+                stats.setdefault("known_signatures", {}).setdefault(sig, []).append(spec)
+            if id(spec) in names:
+                stats.setdefault("boundary_values", {})[names[id(spec)]] = (
+                    "raised " + rec["exc"][0] if rec["exc"] is not None else
+                    f"{len(rec['ts'])} time stamps from {float(rec['ts'][0]):.6g}" + (f"; {'; '.join(f_[:80] for f_ in fails)}" if fails else ""))
             if rec["exc"] is None:
                 stats["completed"] += 1
             else:
@@ -1265,6 +1418,8 @@ def run(chk):
         seq_bad = compare_sessions(chk, scenarios, seq_results, stats, known_path_points)
         chk.cov["traces_validated_against_impl"] = len(kc) + stats["pathlines"] + chk.cov["call_sequences"]["calls"]
     stats["strain_ratios"] = sorted(stats["strain_ratios"])[-8:]
+    sigs = stats.pop("known_signatures", {})
+    stats["known_boundary_signatures"] = {k: len(v) for k, v in sigs.items()}
     chk.cov["runtime_checked"] = {
         "note": "clauses about solve_ivp's trajectory, measured on real get_pathline runs (not proved)",
         **{k: v for k, v in stats.items()},
@@ -1293,6 +1448,31 @@ def run(chk):
         # the same failure class without its recorded witness: not covered by the finding
         for s in known_path_points:
             path_bad.append((s, "get_pathline raised the brentq ValueError but the recorded witness of the known finding does not reproduce"))
+    # ---- the three boundary-value findings: accepted (by their exact signature, see check_pathline) only while the
+    #      recorded witness itself reproduces
+    witnesses = {nm: sp for nm, sp in (bnd if br.drivers.get(GROUP, 1) is None else [])}
+    texts = {
+        KF_ZERO: ("shear: strain limit 0",
+                  "get_pathline(max_strain=0) returns the time stamps [0., 0.] (not strictly increasing): the terminal event is 0 at t = 0, "
+                  "solve_ivp returns t = [0, 0] and the duplicate is handed on -- witness simple_shear_2d('X','Z',1), box [-1,1]^3, "
+                  "final_location (0.25, 0.5, 0.5), max_strain 0"),
+        KF_STEPS0: ("shear: regular_steps = 0",
+                    "get_pathline(regular_steps=0) returns ONE time stamp, the EARLIEST time of the pathline (np.linspace(a, b, 1) = [a]), so the "
+                    "time stamps do not end at 0 (Coq: C18_generated_timestamps) -- witness simple_shear_2d('X','Z',1), box [-1,1]^3, "
+                    "final_location (0.25, 0.5, 0.5), max_strain 0.5, regular_steps 0: [-0.5]"),
+        KF_STAGNATION: ("cell: end point at a corner (stagnation point on the box)",
+                        "for an end point at a corner of the Stokes cell (stagnation point ON the box, |u| ~ 1e-16 U) LSODA takes one step of "
+                        "~2e9 time units, the point drifts out of the box by ~1e-6, the event returns exactly 0 there and the pathline ends at "
+                        "that time: accumulated strain ~4.5e9 for max_strain 0.5 -- witness cell_2d('X','Z',1), box [-1,1]^3, "
+                        "final_location (1, 0, 1), max_strain 0.5"),
+    }
+    for key, (wname, text) in texts.items():
+        pts = sigs.get(key, [])
+        if any(sp is witnesses.get(wname) for sp in pts):
+            findings[key] = text + f"; same signature at {len(pts) - 1} other requests of this run"
+        else:
+            for sp in pts:
+                path_bad.append((sp, f"a request shows the signature of the known finding {key} but its recorded witness does not reproduce"))
     for k, text in findings.items():
         chk.known_finding(f"{k} :: {text}")
     chk.cov["known_findings_reproducing"] = sorted(findings)
